@@ -2397,3 +2397,135 @@ ASSUMPTIONS.append(
     'definitional instances only (empty, cons at entry, snoc at append); the packet stored in a queue entry is '
     'abstracted to a token; the mutual recursion _report_global_response <-> _service_next_global_request is '
     'verified for partial correctness (depth bounded by the queue length: every report pops one entry)')
+
+
+# ------------------------------------------------------------------------------------------------
+# SSHProcess (process.py) overrides _should_block_drain ("a redirected stream blocks drain() while its reader is
+# attached") and connection_lost.  The stream-level contracts above speak about the base class only; here the same
+# property - after connection loss no drain waiter stays blocked - is stated for the override, with the base-class
+# methods re-verified under dynamic dispatch (self._should_block_drain is SSHProcess's).
+RDR = 'opaque:PipeEnd'
+PROC_FIELDS = dict(STREAM_FIELDS, _readers='dict[opt[int],' + RDR + ']', _writers='dict[opt[int],' + RDR + ']')
+PROC_CLASSES = {'SSHStreamSession': PROC_FIELDS, 'SSHProcess': PROC_FIELDS}
+PROC_SHAPES = [s for s in STREAM_SHAPES if s[0] in ('client', 'server')]      # processes are sessions
+
+
+def reader_attached(c, key, new=False):
+    """`key in self._readers` (key: python None / 1, or a z3 term of the key sort)"""
+    st = c.new_state if new else c.old_state
+    r = c.ex.deref(st, c.ex.get_field(st, c.self_ref, '_readers'))
+    if isinstance(r, VDict):
+        if isinstance(key, z3.ExprRef):
+            return z3.BoolVal(False) if not r.items else z3.Or(
+                [key == to_z3(wrap_key(k), 'opt[int]') for k in r.items])
+        return z3.BoolVal(key in r.items)
+    kz = key if isinstance(key, z3.ExprRef) else to_z3(wrap_key(key), r.kt)
+    return z3.Select(r.dom, kz)
+
+
+def wrap_key(k):
+    return VNone if k is None else VInt(k)
+
+
+def proc_blocked(c, key, new=False):
+    return z3.Or(reader_attached(c, key, new), blocked(c, new))
+
+
+def base_should_block_stub(cx):
+    """super()._should_block_drain(datatype): SSHStreamSession's, by its contract (spec should_block)"""
+    return VBool(z3.And(cx.selff('_write_paused').z, z3.Not(cx.selff('_connection_lost').z)))
+
+
+base_should_block_stub.modifies = ()
+base_should_block_stub.spec_getter = lambda: should_block
+
+proc_should_block = Spec(
+    PROP, 'process', 'SSHProcess._should_block_drain', self_class='SSHProcess',
+    params=dict(datatype='opt[int]'), classes=PROC_CLASSES, returns='bool', modifies=[],
+    stubs={'super()._should_block_drain': base_should_block_stub},
+    ensures=[('blocks-iff-reader-attached-or-paused-and-connected', lambda c: c.result == proc_blocked(
+        c, to_z3(c.argv('datatype'), 'opt[int]')))],
+    raises={})
+
+PROC_UNBLOCK_DRAIN, PROC_STREAM_LOST = [], {}
+for _label, _rk, _wk in PROC_SHAPES:
+    for _dt in _wk:
+        PROC_UNBLOCK_DRAIN.append(Spec(
+            PROP, 'stream', 'SSHStreamSession._unblock_drain', self_class='SSHStreamSession',
+            params=dict(datatype='opt[int]'), classes=PROC_CLASSES,
+            stubs=dict(FUT_STUBS, **{'self._should_block_drain': contract_stub(lambda: proc_should_block)}),
+            setup=stream_setup(_rk, _wk), cases=[(f'process,{_label},datatype={_dt}', {'arg:datatype': _dt})],
+            loops={1: LoopSpec(
+                header='for waiter in self._drain_waiters[datatype]',
+                invariant=lambda c: z3.And(
+                    forall_idx(c.extra['iter'].z, lambda f, k: done_in(c.newv('ghost_done'), f), hi=c.extra['i']),
+                    done_only_grows(c)),
+                modifies=['ghost_done'])},
+            ensures=[('unblocked-means-every-drain-waiter-of-this-datatype-is-done', lambda c: z3.Implies(
+                z3.Not(proc_blocked(c, key_arg(c))),
+                forall_idx(table(c, '_drain_waiters')[key_arg(c)].z, lambda f, k: done_in(c.newv('ghost_done'), f)))),
+                ('nothing-undone', done_only_grows),
+                ('tables-kept', lambda c: tables_unchanged(c, '_read_waiters', '_drain_waiters'))],
+            modifies=['ghost_done'], raises={}))
+
+
+def drain_waiters_done_unless_reader(c):
+    """what the base class achieves under SSHProcess's _should_block_drain: the waiters of every datatype whose
+    reader is not attached are released"""
+    d = c.newv('ghost_done')
+    return z3.And(*[z3.Implies(z3.Not(reader_attached(c, k)), forall_idx(ws.z, lambda f, j: done_in(d, f)))
+                    for k, ws in table(c, '_drain_waiters').items()])
+
+
+for _label, _rk, _wk in PROC_SHAPES:
+    PROC_STREAM_LOST[_label] = Spec(
+        PROP, 'stream', 'SSHStreamSession.connection_lost', self_class='SSHStreamSession',
+        params=dict(exc='opt[' + ITEM + ']'), classes=PROC_CLASSES,
+        stubs=dict(FUT_STUBS, **{'self._unblock_drain': contract_stub(lambda: PROC_UNBLOCK_DRAIN[0])}),
+        inline={'self._unblock_read': STREAM_INLINE['self._unblock_read'],
+                'self.eof_received': STREAM_INLINE['self.eof_received']},
+        setup=stream_setup(_rk, _wk), cases=[(f'process,{_label}', {})],
+        requires=eof_inv,
+        modifies=['_connection_lost', '_exception', '_eof_received', '_recv_buf', 'ghost_done'],
+        ensures=[('every-read-waiter-done', all_read_waiters_done),
+                 ('drain-waiters-without-a-reader-done', drain_waiters_done_unless_reader),
+                 ('eof-latched', lambda c: c.new('_eof_received')),
+                 ('connection-loss-latched', lambda c: c.new('_connection_lost')),
+                 ('nothing-undone', done_only_grows),
+                 ('tables-kept', lambda c: tables_unchanged(c, '_read_waiters', '_drain_waiters')),
+                 ('eof-inv', lambda c: eof_inv(Flip(c)))],
+        raises={})
+
+
+def no_datatype_blocks_any_more(c):
+    k = z3.Const(fresh_name('dt'), sort_of('opt[int]'))
+    return z3.ForAll([k], z3.Not(proc_blocked(c, k, new=True)))
+
+
+for _label, _rk, _wk in PROC_SHAPES:
+    Spec(PROP, 'process', 'SSHProcess.connection_lost', self_class='SSHProcess',
+         params=dict(exc='opt[' + ITEM + ']'), classes=PROC_CLASSES,
+         stubs={'super().connection_lost': contract_stub(lambda _l=_label: PROC_STREAM_LOST[_l]),
+                'self._readers.values': values_stub, 'self._writers.values': values_stub,
+                'list': list_of_values_stub, 'reader.close': noop('reader_closed'),
+                'writer.close': noop('writer_closed'),
+                # not called by the pinned code; by contract if a repair releases the waiters explicitly
+                'self._unblock_drain': contract_stub(lambda: PROC_UNBLOCK_DRAIN[0])},
+         loops={1: LoopSpec(header='for reader in list(self._readers.values())', invariant=lambda c: z3.BoolVal(True)),
+                2: LoopSpec(header='for writer in list(self._writers.values())', invariant=lambda c: z3.BoolVal(True))},
+         setup=stream_setup(_rk, _wk), cases=[(_label, {})],
+         requires=eof_inv,
+         ensures=[
+             # the property, for the process classes: after connection loss no waiter stays blocked
+             ('every-read-waiter-done', all_read_waiters_done),
+             ('every-drain-waiter-done', all_drain_waiters_done),
+             ('drain-never-blocks-again', no_datatype_blocks_any_more),
+             ('eof-latched', lambda c: c.new('_eof_received'))],
+         raises={})
+
+ASSUMPTIONS.append(
+    'process.py: SSHProcess.connection_lost / _should_block_drain are under contract with the base-class '
+    '_unblock_drain and connection_lost re-verified under dynamic dispatch; SSHProcess.eof_received (writes EOF '
+    'to redirected writers, then super().eof_received()) is taken as the base method; reader.close()/'
+    'writer.close() are effect-free for the session at that moment (the own connection_lost of the pipe arrives '
+    'later, when the reader is no longer registered)')
